@@ -142,7 +142,9 @@ use cipher::{BlockModeDecBackend, BlockModeDecClosure, BlockModeEncBackend, Bloc
 /// 2 = full groups through `*_par_blocks`, remainder through `*_tail_blocks` only if it is non-empty;
 /// 3 = as 1 through the `*_inplace` methods; 4 = as 2 through the `*_inplace` methods;
 /// 5 = every block through `*_block`, never the parallel methods;
-/// 6 = one block through `*_block_inplace` first, then as 2 on the rest (groups not aligned with the call).
+/// 6 = one block through `*_block_inplace` first, then as 2 on the rest (groups not aligned with the call);
+/// 7 = first half buffer to buffer (private input copy -> caller's buffer), second half through the `*_inplace` methods,
+/// in one backend session; 8 = the other way round.
 pub struct UserBlocks<'a, BS: BlockSizes> {
     pub blocks: &'a mut [Array<u8, BS>],
     pub mode: u8,
@@ -168,6 +170,40 @@ macro_rules! user_blocks_call {
                 }
                 None => return,
             }
+        }
+        if mode == 7 || mode == 8 {
+            // two call forms inside ONE backend session: one half buffer to buffer (from a private copy of the input
+            // into the caller's buffer, which is poisoned first), the other half through the in-place methods
+            let cut = blocks.len().div_ceil(2);
+            let (first, second) = blocks.split_at_mut(cut);
+            let mut halves = [(first, mode == 7), (second, mode == 8)];
+            for (part, b2b) in halves.iter_mut() {
+                if *b2b {
+                    let tmp: Vec<Array<u8, BS>> = part.to_vec();
+                    for x in part.iter_mut() {
+                        for y in x.iter_mut() {
+                            *y ^= 0xA5;
+                        }
+                    }
+                    let buf = InOutBuf::new(&tmp[..], &mut part[..]).expect("harness: equal lengths");
+                    let (groups, tail) = buf.into_chunks::<$B::ParBlocksSize>();
+                    for g in groups {
+                        $backend.$par(g);
+                    }
+                    for t in tail {
+                        $backend.$block(t);
+                    }
+                } else {
+                    let (groups, tail) = Array::<Array<u8, BS>, $B::ParBlocksSize>::slice_as_chunks_mut(&mut part[..]);
+                    for g in groups {
+                        $backend.$par_ip(g);
+                    }
+                    for t in tail {
+                        $backend.$block_ip(t);
+                    }
+                }
+            }
+            return;
         }
         let (groups, tail) = Array::<Array<u8, BS>, $B::ParBlocksSize>::slice_as_chunks_mut(blocks);
         for g in groups {
@@ -271,12 +307,17 @@ macro_rules! impl_block_mode {
                     Kind::InPlace => self.0.encrypt_block(blk_mut(out)),
                     Kind::B2b => self.0.encrypt_block_b2b(blk(inp), blk_mut(out)),
                     Kind::InOut => self.0.encrypt_block_inout(InOut::from((blk(inp), blk_mut(out)))),
+                    Kind::Alias => self.0.encrypt_block_inout(InOut::from(blk_mut(out))),
                 }
             }
             fn many(&mut self, k: Kind, inp: &[u8], out: &mut [u8]) -> R {
                 match k {
                     Kind::InPlace => {
                         self.0.encrypt_blocks(blocks_mut(out));
+                        Ok(())
+                    }
+                    Kind::Alias => {
+                        self.0.encrypt_blocks_inout(InOutBuf::from(blocks_mut::<M::BlockSize>(out)));
                         Ok(())
                     }
                     Kind::B2b => self.0.encrypt_blocks_b2b(blocks(inp), blocks_mut(out)).map_err(|_| ()),
@@ -318,6 +359,10 @@ macro_rules! impl_block_mode {
                 let m = self.0;
                 with_pad!(pad, P => match k {
                     Kind::InPlace => m.encrypt_padded::<P>(&mut out[..], inp.len()).map(|s| s.len()).map_err(|_| ()),
+                    Kind::Alias => match cipher::inout::InOutBufReserved::from_mut_slice(&mut out[..], inp.len()) {
+                        Ok(b) => m.encrypt_padded_inout::<P>(b).map(|s| s.len()).map_err(|_| ()),
+                        Err(_) => Err(()),
+                    },
                     Kind::B2b => m.encrypt_padded_b2b::<P>(inp, &mut out[..]).map(|s| s.len()).map_err(|_| ()),
                     Kind::InOut => {
                         *out = m.encrypt_padded_vec::<P>(inp);
@@ -343,12 +388,17 @@ macro_rules! impl_block_mode {
                     Kind::InPlace => self.0.decrypt_block(blk_mut(out)),
                     Kind::B2b => self.0.decrypt_block_b2b(blk(inp), blk_mut(out)),
                     Kind::InOut => self.0.decrypt_block_inout(InOut::from((blk(inp), blk_mut(out)))),
+                    Kind::Alias => self.0.decrypt_block_inout(InOut::from(blk_mut(out))),
                 }
             }
             fn many(&mut self, k: Kind, inp: &[u8], out: &mut [u8]) -> R {
                 match k {
                     Kind::InPlace => {
                         self.0.decrypt_blocks(blocks_mut(out));
+                        Ok(())
+                    }
+                    Kind::Alias => {
+                        self.0.decrypt_blocks_inout(InOutBuf::from(blocks_mut::<M::BlockSize>(out)));
                         Ok(())
                     }
                     Kind::B2b => self.0.decrypt_blocks_b2b(blocks(inp), blocks_mut(out)).map_err(|_| ()),
@@ -390,6 +440,7 @@ macro_rules! impl_block_mode {
                 let m = self.0;
                 with_pad!(pad, P => match k {
                     Kind::InPlace => m.decrypt_padded::<P>(&mut out[..]).map(|s| s.len()).map_err(|_| ()),
+                    Kind::Alias => m.decrypt_padded_inout::<P>(InOutBuf::from(&mut out[..])).map(|s| s.len()).map_err(|_| ()),
                     Kind::B2b => m.decrypt_padded_b2b::<P>(inp, &mut out[..]).map(|s| s.len()).map_err(|_| ()),
                     Kind::InOut => match m.decrypt_padded_vec::<P>(inp) {
                         Ok(v) => {
@@ -416,6 +467,7 @@ macro_rules! impl_block_mode {
             Kind::InPlace => { AsyncStreamCipher::encrypt(m, $o); Ok(()) }
             Kind::B2b => AsyncStreamCipher::encrypt_b2b(m, $i, $o).map_err(|_| ()),
             Kind::InOut => match InOutBuf::new($i, $o) { Ok(b) => { AsyncStreamCipher::encrypt_inout(m, b); Ok(()) } Err(_) => Err(()) },
+            Kind::Alias => { AsyncStreamCipher::encrypt_inout(m, InOutBuf::from($o)); Ok(()) }
         })
     }};
     (@oneshot_dec async $s:ident $k:ident $i:ident $o:ident) => {{
@@ -424,6 +476,7 @@ macro_rules! impl_block_mode {
             Kind::InPlace => { AsyncStreamCipher::decrypt(m, $o); Ok(()) }
             Kind::B2b => AsyncStreamCipher::decrypt_b2b(m, $i, $o).map_err(|_| ()),
             Kind::InOut => match InOutBuf::new($i, $o) { Ok(b) => { AsyncStreamCipher::decrypt_inout(m, b); Ok(()) } Err(_) => Err(()) },
+            Kind::Alias => { AsyncStreamCipher::decrypt_inout(m, InOutBuf::from($o)); Ok(()) }
         })
     }};
 }
@@ -500,6 +553,10 @@ macro_rules! impl_core {
                         self.0.apply_keystream_blocks(blocks_mut(out));
                         Ok(())
                     }
+                    Kind::Alias => {
+                        self.0.apply_keystream_blocks_inout(InOutBuf::from(blocks_mut::<T::BlockSize>(out)));
+                        Ok(())
+                    }
                     Kind::B2b | Kind::InOut => match InOutBuf::new(blocks::<T::BlockSize>(inp), blocks_mut::<T::BlockSize>(out)) {
                         Ok(b) => {
                             self.0.apply_keystream_blocks_inout(b);
@@ -511,7 +568,7 @@ macro_rules! impl_core {
             }
             fn apply_block(&mut self, k: Kind, inp: &[u8], out: &mut [u8]) {
                 match k {
-                    Kind::InPlace => self.0.apply_keystream_block_inout(InOut::from(blk_mut::<T::BlockSize>(out))),
+                    Kind::InPlace | Kind::Alias => self.0.apply_keystream_block_inout(InOut::from(blk_mut::<T::BlockSize>(out))),
                     Kind::B2b | Kind::InOut => self.0.apply_keystream_block_inout(InOut::from((blk::<T::BlockSize>(inp), blk_mut::<T::BlockSize>(out)))),
                 }
             }
@@ -526,7 +583,7 @@ macro_rules! impl_core {
             }
             fn partial(self: Box<Self>, k: Kind, inp: &[u8], out: &mut [u8]) -> R {
                 match k {
-                    Kind::InPlace => self.0.try_apply_keystream_partial(InOutBuf::from(out)).map_err(|_| ()),
+                    Kind::InPlace | Kind::Alias => self.0.try_apply_keystream_partial(InOutBuf::from(out)).map_err(|_| ()),
                     Kind::B2b | Kind::InOut => match InOutBuf::new(inp, out) {
                         Ok(b) => self.0.try_apply_keystream_partial(b).map_err(|_| ()),
                         Err(_) => Err(()),
@@ -568,6 +625,7 @@ macro_rules! impl_core {
             fn apply(&mut self, k: Kind, inp: &[u8], out: &mut [u8]) -> R {
                 match k {
                     Kind::InPlace => self.0.try_apply_keystream(out).map_err(|_| ()),
+                    Kind::Alias => self.0.try_apply_keystream_inout(InOutBuf::from(out)).map_err(|_| ()),
                     Kind::B2b => self.0.apply_keystream_b2b(inp, out).map_err(|_| ()),
                     Kind::InOut => match InOutBuf::new(inp, out) {
                         Ok(b) => self.0.try_apply_keystream_inout(b).map_err(|_| ()),
@@ -735,12 +793,14 @@ where
     };
     match (dir, k) {
         (Dir::Enc, Kind::InPlace) => cts::Encrypt::encrypt(m, out).map_err(|_| ()),
+        (Dir::Enc, Kind::Alias) => cts::Encrypt::encrypt_inout(m, InOutBuf::from(out)).map_err(|_| ()),
         (Dir::Enc, Kind::B2b) => cts::Encrypt::encrypt_b2b(m, inp, out).map_err(|_| ()),
         (Dir::Enc, Kind::InOut) => match InOutBuf::new(inp, out) {
             Ok(b) => cts::Encrypt::encrypt_inout(m, b).map_err(|_| ()),
             Err(_) => Err(()),
         },
         (Dir::Dec, Kind::InPlace) => cts::Decrypt::decrypt(m, out).map_err(|_| ()),
+        (Dir::Dec, Kind::Alias) => cts::Decrypt::decrypt_inout(m, InOutBuf::from(out)).map_err(|_| ()),
         (Dir::Dec, Kind::B2b) => cts::Decrypt::decrypt_b2b(m, inp, out).map_err(|_| ()),
         (Dir::Dec, Kind::InOut) => match InOutBuf::new(inp, out) {
             Ok(b) => cts::Decrypt::decrypt_inout(m, b).map_err(|_| ()),
